@@ -287,6 +287,11 @@ func (p *Parser) parseBetweenExpression(left Expression) Expression {
 	}
 
 	p.nextToken()
+
+	if !p.curTokenIsOperand() {
+		return nil
+	}
+
 	expression.Range[0] = p.parseIdentifier()
 
 	if !p.expectPeek(AND) {
@@ -294,6 +299,11 @@ func (p *Parser) parseBetweenExpression(left Expression) Expression {
 	}
 
 	p.nextToken()
+
+	if !p.curTokenIsOperand() {
+		return nil
+	}
+
 	expression.Range[1] = p.parseIdentifier()
 
 	return expression
@@ -436,6 +446,18 @@ func (p *Parser) parseActions(token Token) []Expression {
 }
 
 // helpers
+
+// curTokenIsOperand reports (and records as a syntax error otherwise) that the current token can be an operand
+func (p *Parser) curTokenIsOperand() bool {
+	if p.curToken.Type == IDENT {
+		return true
+	}
+
+	msg := fmt.Sprintf("expected next token to be %s, got %s instead", IDENT, p.curToken.Type)
+	p.errors = append(p.errors, msg)
+
+	return false
+}
 
 func (p *Parser) peekTokenIs(t TokenType) bool {
 	return p.peekToken.Type == t
